@@ -1,9 +1,70 @@
-(** C19 — the two-buffer input reader delivers the source exactly, for every buffer size and reader.
-    (stage 1: witnesses only; the theorems follow) *)
+(** C19 — the two-buffer input reader (lexer/input) delivers the source exactly, for every buffer
+    size and every reader.  Statements only; proofs are in Algo.C19.Proofs*.
+
+    [new n (mkReader src ds d)] is input.New with buffer size [n] on a reader that holds [src]
+    and answers its Read calls as the decisions [ds], then [d] for ever, say (short reads, (0,nil)
+    stalls, io.EOF together with the last bytes or on a later call): the theorems quantify over
+    all of them.  [encode] is the RFC 3629 encoder, [scalar] the Unicode scalar values,
+    [spec_dec] Unicode Table 3-7 as a function; none of them uses the tables of utf8.go.
+    [dec] is the decoding decision tree of Next on a byte list, over the tables [first] and
+    [acceptRanges] regenerated from utf8.go on every run (Algo.Gen.C19_Tables). *)
 Require Import NArith ZArith List Bool.
 Import ListNotations.
-From Algo.C19 Require Import Model Spec.
+From Algo.C19 Require Import Model Spec ProofsUtf8 ProofsBuffer ProofsStream.
 Local Open Scope N_scope.
+
+(** The decoder driven by the regenerated tables accepts exactly the well-formed sequences of
+    RFC 3629 and returns their code points: every scalar value is decoded from its encoding
+    whatever follows; whatever is decoded is a scalar value preceded by nothing but its
+    encoding; and on every byte string the decoder agrees with Table 3-7 (rune, ill-formed, or
+    cut off by the end). *)
+Theorem utf8_tables_correct :
+  (forall c rest, scalar c -> dec (encode c ++ rest) = DRune c (elen c)) /\
+  (forall b0 t c k, b0 < 256 -> dec (b0 :: t) = DRune c k ->
+     scalar c /\ k = elen c /\ exists rest, b0 :: t = encode c ++ rest) /\
+  (forall b0 t, b0 < 256 -> dec (b0 :: t) = spec_dec (b0 :: t)).
+Proof. exact utf8_tables_correct_proof. Qed.
+
+(** For every buffer size n >= 1, every reader oracle and every valid UTF-8 source without
+    U+0000 (known finding nul-sentinel), the runes returned by Next until end of input are
+    exactly the decoded source, followed by io.EOF (the fuel is the number of Next calls made).
+    For the empty source New itself reports io.EOF. *)
+Theorem C19_stream :
+  forall (n : nat) (ds : list decision) (d : decision) (rs : list N),
+    (1 <= n)%nat -> Forall scalar rs -> Forall (fun c => c <> 0) rs ->
+    match rs with
+    | [] => new n (mkReader [] ds d) = Ok None
+    | _ :: _ =>
+      exists i0, new n (mkReader (encode_all rs) ds d) = Ok (Some i0) /\
+        forall fuel, (length rs < fuel)%nat -> next_all fuel i0 = Ok (rs, Some NEOF)
+    end.
+Proof.
+  intros n ds d [|c rs] Hn Hs Hz.
+  - apply new_empty, Hn.
+  - apply stream_valid; try assumption. discriminate.
+Qed.
+
+(** Ill-formed input is reported as an error and never altered: when the source is a valid
+    prefix followed by bytes that do not start a well-formed sequence (Table 3-7 says ill-formed,
+    or cut off by the end of the source), Next returns exactly the runes of the prefix and then an
+    error, never a rune.  The error is the invalid-UTF-8 error, except when the source merely
+    stops inside a sequence: then it is io.EOF (known finding truncated-tail-eof). *)
+Theorem C19_invalid :
+  forall (n : nat) (ds : list decision) (d : decision) (rs bad : list N),
+    (1 <= n)%nat -> Forall scalar rs -> Forall (fun b => b < 256) bad ->
+    Forall (fun b => b <> 0) (encode_all rs ++ bad) ->
+    bad <> [] -> (forall c k, spec_dec bad <> DRune c k) ->
+    exists i0, new n (mkReader (encode_all rs ++ bad) ds d) = Ok (Some i0) /\
+      forall fuel, (length rs < fuel)%nat ->
+      exists e, next_all fuel i0 = Ok (rs, Some e) /\
+        match spec_dec bad with
+        | DInvalid => exists p, e = NInvalid p
+        | _ => e = NEOF
+        end.
+Proof.
+  intros n ds d rs bad Hn Hs Hb Hz Hne Hnr.
+  apply stream_ill_formed; try assumption. right. exact Hne.
+Qed.
 
 Definition rd (src : list N) (ds : list decision) (d : decision) := mkReader src ds d.
 Definition one_byte := mkDec (AK 1) false.
@@ -48,6 +109,9 @@ Example C19_truncated_refuted :
     end.
 Proof. exists [97; 195]. vm_compute. split; reflexivity. Qed.
 
+Print Assumptions utf8_tables_correct.
+Print Assumptions C19_stream.
+Print Assumptions C19_invalid.
 Print Assumptions C19_example.
 Print Assumptions C19_nul_refuted.
 Print Assumptions C19_truncated_refuted.
